@@ -1488,6 +1488,12 @@ def _resolve(self, func, argv=None):
         g2 = [i for i in good if re.search(r'\b%s\b' % re.escape(tbase), self.ix.get(i).params[0][1] if self.ix.get(i).params else '')]
         if len(g2) == 1:
             return self.ix.get(g2[0])
+        # use the module path of the callee's type as a hint (e.g. channelmonitor::OnchainEventEntry)
+        segs = [x for x in re.sub(r'<.*$', '', tyname).split('::')[:-1] if x and x not in ('crate', 'self', 'super')]
+        if segs:
+            g3 = [i for i in (g2 or good) if all(sg in self.ix.offsets[i][0] for sg in segs[-1:])]
+            if len(g3) == 1:
+                return self.ix.get(g3[0])
         raise Unsupported('ambiguous method %s (%d candidates)' % (func[:100], len(good)))
     return None
 
